@@ -2,6 +2,7 @@
 # usage: tools/try_seed.sh <property> <patch.diff>  -- applies the patch to /repo, runs the quick check, reverts.
 set -u
 P=$1; PATCH=$2
+if [ -n "$(git -C /repo status --porcelain)" ]; then echo "/repo has uncommitted changes: commit them first"; exit 2; fi
 cd /repo && git apply "$PATCH" || { echo "APPLY FAILED"; exit 2; }
 cd /verif && ./check $P --no-evidence > /tmp/try_seed.out 2>&1; rc=$?
 cd /repo && git checkout -- . 
